@@ -688,7 +688,15 @@ func TestLockstep(t *testing.T) {
 		}
 		fmt.Fprintf(fo, "#%s\n", sp[0])
 		fo.Sync()
+		// watchdog on the REAL clock: a script takes milliseconds; a bubble whose goroutines wait on something created
+		// outside it (package-level state of the library) is not recognised as deadlocked by synctest and would hang until
+		// the test timeout. The process is ended instead; the runner attributes the crash to this script.
+		wd := time.AfterFunc(45*time.Second, func() {
+			fmt.Fprintln(os.Stderr, "panic: watchdog: the script did not finish within 45 s of real time (deadlock that synctest cannot see: a library goroutine waits on package-level state)")
+			os.Exit(3)
+		})
 		res := runScript(t, sp[1])
+		wd.Stop()
 		fmt.Fprintf(fo, "%s %s\n", sp[0], res)
 	}
 }
